@@ -70,6 +70,20 @@ func StringToAmount(s string) (massutil.Amount, error) {
 	if len(s1) > 2 {
 		return massutil.ZeroAmount(), fmt.Errorf("illegal number format")
 	}
+	// only unsigned plain decimal numerals: digits on both sides of the
+	// optional point, and at least one digit overall
+	nDigits := 0
+	for _, part := range s1 {
+		for i := 0; i < len(part); i++ {
+			if part[i] < '0' || part[i] > '9' {
+				return massutil.ZeroAmount(), fmt.Errorf("illegal number format")
+			}
+		}
+		nDigits += len(part)
+	}
+	if nDigits == 0 {
+		return massutil.ZeroAmount(), fmt.Errorf("illegal number format")
+	}
 	var sInt, sFrac string
 	// preproccess integral part
 	sInt = strings.TrimLeft(s1[0], "0")
